@@ -54,7 +54,7 @@ struct OpResult {
 };
 
 // fault kinds counted when they actually FIRED
-enum FaultKind { FK_ALLOC = 0, FK_OPEN_ERRNO, FK_EIO, FK_TRUNC, FK_SHORTREAD, FK_UNSEEKABLE, FK_CORRUPT, FK_PREEMPT, FK_N };
+enum FaultKind { FK_ALLOC = 0, FK_OPEN_ERRNO, FK_EIO, FK_TRUNC, FK_SHORTREAD, FK_UNSEEKABLE, FK_CORRUPT, FK_PREEMPT, FK_ALLOC_HUGE, FK_N };
 extern const char* const kFaultNames[FK_N];
 
 // named rare-condition probes (DESIGN §7)
